@@ -1082,3 +1082,34 @@ def gotcha_rule(run, rid, p, modules, text):
             run.ob(rid, mn, True, '%s: no parenthesised-string "tuple" used with `in`, no list extended by a single item' % mn,
                    rel=m.rel, line=1, nontrivial=False)
     return n
+
+
+# ---------------------------------------------------------------------------------------------
+# running minimum / maximum written out as a loop
+
+def running_extremes(fnode):
+    """{name: 'min' | 'max'} for locals kept as a running extreme:  `if m is None or n < m: m = n`  (min),
+    `if M is None or n > M: M = n` (max), in either operand order and with <= / >=."""
+    out = {}
+    gm = _GM(fnode)
+    for s in ast.walk(fnode):
+        if not (isinstance(s, ast.Assign) and len(s.targets) == 1 and isinstance(s.targets[0], ast.Name) and isinstance(s.value, ast.Name)):
+            continue
+        var, val = s.targets[0].id, s.value.id
+        for g in gm.chain(s) or ():
+            if g.kind != 'if' or not g.pol:
+                continue
+            for c in ast.walk(g.test):
+                if isinstance(c, ast.Compare) and len(c.ops) == 1 and isinstance(c.left, ast.Name) and isinstance(c.comparators[0], ast.Name):
+                    l, r, op = c.left.id, c.comparators[0].id, type(c.ops[0])
+                    if (l, r) == (val, var) and op in (ast.Lt, ast.LtE) or (l, r) == (var, val) and op in (ast.Gt, ast.GtE):
+                        out[var] = 'min'
+                    if (l, r) == (val, var) and op in (ast.Gt, ast.GtE) or (l, r) == (var, val) and op in (ast.Lt, ast.LtE):
+                        out[var] = 'max'
+    return out
+
+
+def closure_aggregates(fnode, clo):
+    """The closure plus 'min' / 'max' for every running extreme in it."""
+    rx = running_extremes(fnode)
+    return set(clo) | {rx[n] for n in clo if n in rx}
